@@ -24,8 +24,8 @@ pub fn check() -> Check {
 
 fn plan(tier: Tier) -> Vec<Workload> {
     vec![
-        Workload::new("inprocess", tier.pick(40_000, 800_000)),
-        Workload::new("cli", tier.pick(160, 5_000)),
+        Workload::new("inprocess", tier.pick(150_000, 2_000_000)),
+        Workload::new("cli", tier.pick(320, 8_000)),
     ]
 }
 
